@@ -103,8 +103,7 @@ SPEC = dict(
         dict(name='trigger_cleanup_error', harness='h_trigger_cleanup_error', enforce='tu_cleanup_op_trigger_cleanup_error'),
         dict(name='source_receiver_set_done', harness='h_source_receiver_set_done', enforce='source_receiver_set_done'),
         dict(name='source_receiver_set_error', harness='h_source_receiver_set_error', enforce='source_receiver_set_error'),
-        # fails on the unchanged tree (destroys sourceOp_ instead of triggerOp_): thorough tier until the lead registers the finding
-        dict(name='trigger_receiver_set_done', harness='h_trigger_receiver_set_done', enforce='trigger_receiver_set_done', tier='thorough'),
+        dict(name='trigger_receiver_set_done', harness='h_trigger_receiver_set_done', enforce='trigger_receiver_set_done'),
         dict(name='trigger_receiver_set_error', harness='h_trigger_receiver_set_error', enforce='trigger_receiver_set_error'),
         dict(name='next_start', harness='h_next_start', enforce='tu_next_op_start'),
         dict(name='next_receiver_wrapper_set_value', harness='h_next_wrapper_set_value', enforce='next_receiver_wrapper_set_value'),
